@@ -7,7 +7,7 @@ PROP = dict(
             dict(name="amm-sequences", go_test="TestC06Seq", runner="C06",
                  env=dict(quick=dict(VERIF_CASES=170), thorough=dict(VERIF_CASES=5000))),
             dict(name="amm-ranged", go_test="TestC06Ranged", runner="C06",
-                 env=dict(quick=dict(VERIF_CASES=45), thorough=dict(VERIF_CASES=1500))),
+                 env=dict(quick=dict(VERIF_CASES=45, VERIF_C06_NEIGH=1), thorough=dict(VERIF_CASES=1500, VERIF_C06_NEIGH=4))),
             dict(name="liquidity-keeper", go_test="TestC06Keeper", runner="C06-keeper",
                  env=dict(quick=dict(VERIF_CASES=14), thorough=dict(VERIF_CASES=500))),
         ],
@@ -19,8 +19,13 @@ PROP = dict(
              "(depleted -> fail, pc=0 -> fail, x=y=0 -> fail), incl. last-share redemptions, pc=ps-1, pc=ps+1, tiny deposits into big pools; non-trivial = at least one executed deposit and one executed withdrawal. "
              "amm-ranged: case = CreateRangedPool on an admissible (min,max,initial) triple (min from 10^-15 to 10^19, gap from exactly 0.1% to 10^10x, max up to 10^20, initial at/next to both bounds and inside; 3% inadmissible) "
              "or NewRangedPool on arbitrary reserves (one-sided, in-range ratio, arbitrary), then 3-15 deposits/withdrawals, with pool.Price() after every step and BuyAmountOver/SellAmountUnder at prices at, outside and inside the range; "
+             "35% of the cases are EXACTLY BALANCED offers: the counterpart of x (and of y) at the initial price is computed with the real amm.CreateRangedPool (the other coin abundant) and the offers "
+             "(x, cy-1), (x, cy), (x, cy+1), (cx-1, y), (cx, y), (cx+1, y) are made for x, y and neighbouring amounts, initial price strictly inside / one step from a bound / at min / at max; the extracted "
+             "holds_C06_create judges accepted <= offered for both coins on every returned pool and ranged_roots_ok (the hypothesis of c06_create_ranged_bounded_partial) is evaluated on every triple; "
              "the first four cases are the fixed witnesses of C06-F1/C06-F2; non-trivial = a price was observed. distinct by digest of the case's inputs and operations. "
-             "liquidity-keeper: case = the C04 custody history through the REAL msg server / EndBlocker with three apps whose pairs and pools have the SAME ids (pair coins rotated per app), "
+             "liquidity-keeper: 70% of the pairs get one or two ranged pools through the REAL MsgCreateRangedPool whose DepositCoins are an exactly balanced offer (or one unit off) for a tick-aligned triple, "
+             "the creator holding far more than offered: holds_C06_create judges the amm amounts, the coins that LEFT THE CREATOR'S WALLET per denom (creation fee excluded) and the coins the new reserve received against DepositCoins; "
+             "case = the C04 custody history through the REAL msg server / EndBlocker with three apps whose pairs and pools have the SAME ids (pair coins rotated per app), "
              "withdraw fee rates {0, 0.3%, 50%}, a warm-up batch in which liquidity providers deposit into every pool, then 3-8 batches of 8-23 ops, 80% pool ops (deposit / withdraw / farm / unfarm / "
              "deposit-and-farm / unfarm-and-withdraw), 18% of them cross-app attempts (the message names (app, pool id) with the pool coin / pair coins of another app's pool of the same id; half by the creator, "
              "who holds shares of every pool); after EVERY step and for EVERY pool the runner projects (reserve x, reserve y, share supply) from the observed reserve balances and bank supply, replays "
@@ -30,11 +35,12 @@ PROP = dict(
         modelled=["the reserve/supply threading of keeper.ExecuteDepositRequest/ExecuteWithdrawRequest around the real amm calls (bank, escrow and request status are C04's Liquidity model)",
                   "ApproxSqrt/Power intermediate overflow panics inside the Newton loop (sizes are bounded by the admissible price range; never observed)"],
         assumptions=["amounts non-negative, 0 < pc <= ps for a withdrawal (the shares were escrowed from the withdrawer), fee rate in [0,1]",
+                     "c06_create_ranged_bounded_partial assumes 0 < sqrt(min) <= sqrt(initial) <= sqrt(max) for the Newton roots the call computes (ranged_roots_ok; no monotonicity lemma for utils.DecApproxSqrt is proved); the runner reports a creation on which it is false",
                      "price clause for the implemented fixed-point pipeline is measured, not proved (c06_ranged_price_ideal_partial); excursions above 10^-6 of the bound outside the two listed classes are violations"],
     )
 
 MANIFEST = dict(
-    level_text="For all non-negative integers (no size bound: the SafeMath overflow fallback is part of the model) amm.Deposit never accepts more than offered and mints shares at no better than reserves per share (exact against the offer, slack rx*ps*10^-18 against the accepted amounts, shown attained), amm.Withdraw never returns more than the pro-rata share reduced by the fee (exact), the last shares redeem the entire reserves, neither call panics on a live pool; lifted by induction to every finite history of deposits and withdrawals on a basic or ranged pool: reserves per share never fall below (1-10^-18)^n >= 1-n*10^-18 of their initial value, n = number of deposits. Ranged order-book clamps never exceed the reserves. Through the keeper: a pool message that carries any pool coin other than the named pool's own (in particular the shares of another app's pool with the same pool id), or deposit coins outside the pool's pair, is rejected and changes nothing (model theorem; the keeper workload checks it on the real msg server for every pool after every step). The ranged-pool price clause is proved only for exact arithmetic (idealised square roots, over Q); for the code it is refuted by two witnesses (fresh pool 82% below min through the single-asset shortcut of DeriveTranslation; single-asset pool 15% above max) listed as known findings, and otherwise measured on every run.",
+    level_text="For all non-negative integers (no size bound: the SafeMath overflow fallback is part of the model) amm.Deposit never accepts more than offered and mints shares at no better than reserves per share (exact against the offer, slack rx*ps*10^-18 against the accepted amounts, shown attained), amm.Withdraw never returns more than the pro-rata share reduced by the fee (exact), the last shares redeem the entire reserves, neither call panics on a live pool; lifted by induction to every finite history of deposits and withdrawals on a basic or ranged pool: reserves per share never fall below (1-10^-18)^n >= 1-n*10^-18 of their initial value, n = number of deposits. Creating a ranged pool never accepts more of either coin than offered, for all offers and price triples on which CreateRangedPool returns a pool (hypothesis: the three computed Newton square roots are positive and ordered - executable, evaluated on every replayed creation; amm.CreateRangedPool and NewRangedPool are regenerated from the source and proved equal to the model for all inputs). Ranged order-book clamps never exceed the reserves. Through the keeper: a pool message that carries any pool coin other than the named pool's own (in particular the shares of another app's pool with the same pool id), or deposit coins outside the pool's pair, is rejected and changes nothing (model theorem; the keeper workload checks it on the real msg server for every pool after every step). The ranged-pool price clause is proved only for exact arithmetic (idealised square roots, over Q); for the code it is refuted by two witnesses (fresh pool 82% below min through the single-asset shortcut of DeriveTranslation; single-asset pool 15% above max) listed as known findings, and otherwise measured on every run.",
     design_ref="DESIGN.md section 4 C06",
     level_note="Trusted: Coq kernel, extraction (ExtrOcamlBasic), OCaml runner, Go harness; the model of cosmossdk.io/math (Lib/DecArith) is tied by the DEC correspondence target. No axioms (every theorem Closed under the global context). The sequence workload threads reserves through the real amm calls itself; the keeper workload observes reserves and supply on the real keeper (swaps against a pool enter as the recorded flows; they are C05's subject).",
     technique="Coq proof (algebraic laws over Z with exact sdk.Dec rounding, induction over operation histories, idealised curve lemma over Q) + model/implementation correspondence run of the real amm package with the extracted predicates judging the implementation's outputs",
